@@ -131,8 +131,11 @@ impl Report {
     }
     pub fn violation(&mut self, sig: String, detail: J) {
         // keep the first few per signature
-        if self.violations.iter().filter(|v| v.sig == sig).count() < 3 && self.violations.len() < 200 {
-            eprintln!("VIOLATION-CANDIDATE {} {}", sig, detail.to_string());
+        let seen = self.violations.iter().filter(|v| v.sig == sig).count();
+        if seen < 3 && self.violations.len() < 200 {
+            if seen == 0 {
+                eprintln!("VIOLATION-CANDIDATE {} {}", sig, detail.to_string());
+            }
             self.violations.push(Violation { sig, detail });
         }
         self.count("violations_total", 1);
